@@ -26,7 +26,7 @@ BINARIES = {
 
 T = "./internal/transfer"
 
-HOOK_COMMITS = ["f6caa67"]
+HOOK_COMMITS = ["f6caa67", "c0d7bd4"]
 X = "./internal/verifxfer"
 
 # properties whose check is not registered (yet); reason shown under not_applicable
@@ -555,6 +555,14 @@ CHECKS["C03"]["level_text"] += (" Unit 'e2e' runs the real binaries (thruserv, `
 CHECKS["C04"]["level_text"] += (" Unit 'e2e' uses the real binaries: thruserv and `thru host` run as processes, a first (and possibly second) "
                                 "`thru join` is killed with SIGKILL a drawn 0-600 ms after it reported its transfer connection (6-48 MB file), the "
                                 "last `thru join` answers the resume prompt with yes and must exit 0 within 90 s with exactly the hosted tree.")
+_FLIP = (" A sixth of the interruptions are of the kind 'flip': the receiver process survives, one bit of a chunk payload (not the last chunk "
+         "of a file with three or more chunks) is inverted in flight and that payload arrives 120 ms late, the sender's workers are "
+         "slowed by 2 ms per chunk so that the chunks of a file spread over the data streams, and the goroutine that holds the file's "
+         "verified last chunk waits between checksum and write until the checksum failure of the damaged chunk has been processed "
+         "(failure-finalize of the file) or 300 ms have passed - the schedule 'one stream fails while another still has a chunk of "
+         "the same file in its hands' (about 40 such late writes per quick run).")
+CHECKS["C04"]["level_text"] += _FLIP
+CHECKS["C05"]["level_text"] += _FLIP
 CHECKS["C01"]["level_text"] += (" Unit 'e2e' runs the complete applications over real QUIC (thruserv, `thru host`, `thru join` as processes): "
                                 "whenever `thru join` exits 0 its output directory must hold exactly the hosted tree.")
 CHECKS["C12"]["level_text"] += (" Unit 'e2e' uses the real binaries: `thru host --max-receivers M` (M = 1, 2) serves M+1 or M+2 receivers that "
@@ -570,5 +578,5 @@ CHECKS["C12"]["level_note"] = ("In the white-box units the real transfer functio
                                "captured and state is read under the sender's mutex; the 'e2e' unit runs the real binaries but only join-together "
                                "scenarios (no leave/re-join), and reads the host's status lines.")
 CHECKS["C04"]["level_note"] = ("SIGKILL keeps the page cache: this decides process death, not power loss. The child-process units are complete at hook "
-                               "granularity only; the 'e2e' unit kills the real `thru join` at a random instant. The thorough tier additionally lets one data "
-                               "stream end in mid-frame while the others go on. Trusted: the harness's wire decoder and the production LoadSidecar used for inspection.")
+                               "granularity only; the 'e2e' unit kills the real `thru join` at a random instant. Partial failures: in-flight damage of one chunk with a late writer (kind 'flip', both tiers) and, in the thorough tier, one data "
+                               "stream that ends in mid-frame while the others go on. Trusted: the harness's wire decoder and the production LoadSidecar used for inspection.")
